@@ -136,7 +136,7 @@ func (e *Engine) runPaths(p *Path, onExit exitFn) {
 		steps := 0
 		for !cur.done && !cur.st.Dead {
 			steps++
-			if steps > 200000 {
+			if (steps > 200000 && !e.inInit) || steps > 20000000 {
 				execFail("path too long (missing loop invariant?)")
 			}
 			forks := e.step(cur, onExit)
